@@ -210,6 +210,50 @@ def main() -> int:
             j = run.job(doc, want=[], plan={"fn": "models_given", "args": {"instances": {f"/components/schemas/{pname}": insts}}})
             binfo[j["id"]] = (bi, kind, pname, prop, tgt)
             bjobs.append(j)
+    # (b') the same for every position a schema can stand in (property, array items, additional properties, union member) x targets whose decoding needs
+    #      construction at a second level (maps of models / dates / enums / lists, a model with typed additional properties of its own)
+    Rf = lambda n_: {"$ref": f"#/components/schemas/{n_}"}  # noqa: E731
+    targets = {"map_of_models": {"type": "object", "additionalProperties": Rf("ZqItem")}, "map_of_dates": {"type": "object", "additionalProperties": {"type": "string", "format": "date"}},
+               "map_of_enums": {"type": "object", "additionalProperties": Rf("ZqCode")}, "map_of_lists": {"type": "object", "additionalProperties": {"type": "array", "items": Rf("ZqItem")}},
+               "map_of_unions": {"type": "object", "additionalProperties": {"oneOf": [Rf("ZqItem"), {"type": "string", "format": "date"}]}},
+               "props_and_typed_addl": {"type": "object", "properties": {"k": {"type": "string"}}, "additionalProperties": Rf("ZqItem")},
+               "plain": {"type": "object", "properties": {"k": {"type": "string"}, "d": {"type": "string", "format": "date"}}, "required": ["k"]},
+               "closed": {"type": "object", "properties": {"k": {"type": "integer"}}, "additionalProperties": False}}
+    positions = {"property": lambda t_: {"type": "object", "properties": {"p": t_, "other": {"type": "integer"}}},
+                 "required_property": lambda t_: {"type": "object", "required": ["p"], "properties": {"p": t_}},
+                 "items": lambda t_: {"type": "object", "properties": {"p": {"type": "array", "items": t_}}},
+                 "additional": lambda t_: {"type": "object", "properties": {"fixed": {"type": "string"}}, "additionalProperties": t_},
+                 "union_member": lambda t_: {"type": "object", "properties": {"p": {"oneOf": [t_, {"type": "integer"}]}}},
+                 # composition: the holder is declared before its parent, whose name ends with the holder's name (BaseZqHolder / ZqHolder)
+                 "allof_member": lambda t_: {"allOf": [t_, {"type": "object", "properties": {"own": {"type": "string"}}}]},
+                 "allof_member_last": lambda t_: {"allOf": [{"type": "object", "properties": {"own": {"type": "string"}}, "required": ["own"]}, t_]}}
+    pos_base = len(bases) + 1000
+    for ti_, (tname, tsch) in enumerate(targets.items()):
+        for pi_, (posname, mk_) in enumerate(positions.items()):
+            if quick and (ti_ + pi_) % 2 and not (tname.startswith("map_of_models") or posname == "additional" or posname.startswith("allof_member")):
+                continue
+            for version in ("3.0.3",) if quick else ("3.0.3", "3.1.0"):
+                helper = {"ZqItem": {"type": "object", "properties": {"sku": {"type": "string"}, "when": {"type": "string", "format": "date"}}, "required": ["sku"]}, "ZqCode": {"type": "string", "enum": ["c1", "c2"]}}
+                dref = docs.base_doc(version, "Positions")
+                dinl = docs.base_doc(version, "Positions")
+                if posname.startswith("allof_member"):
+                    if tname not in ("plain", "props_and_typed_addl", "closed"):
+                        continue
+                    dref["components"]["schemas"] = dict(helper, ZqHolder=mk_(Rf("BaseZqHolder")), BaseZqHolder=copy.deepcopy(tsch), ZqUser={"type": "object", "properties": {"h": Rf("ZqHolder")}})
+                    dinl["components"]["schemas"] = dict(helper, ZqHolder=mk_(copy.deepcopy(tsch)), BaseZqHolder=copy.deepcopy(tsch), ZqUser={"type": "object", "properties": {"h": Rf("ZqHolder")}})
+                else:
+                    dref["components"]["schemas"] = dict(helper, ZqTarget=copy.deepcopy(tsch), ZqHolder=mk_(Rf("ZqTarget")))
+                    dinl["components"]["schemas"] = dict(helper, ZqTarget=copy.deepcopy(tsch), ZqHolder=mk_(copy.deepcopy(tsch)))
+                tok = docs.Tok(r)
+                try:
+                    insts = [[l, v_, f] for l, v_, f in docs.object_instances(dref["components"]["schemas"]["ZqHolder"], dref["components"]["schemas"], tok, n_rand=4)][:14]
+                except (docs.Bottomless, RecursionError):
+                    continue
+                pos_base += 1
+                for kind, doc in (("ref", dref), ("inline", dinl)):
+                    j = run.job(doc, want=[], plan={"fn": "models_given", "args": {"instances": {"/components/schemas/ZqHolder": insts}}})
+                    binfo[j["id"]] = (pos_base, kind, "ZqHolder", posname, tname)
+                    bjobs.append(j)
     brs = run.map(bjobs, timeout=300)
     pair = {}
     for j, res in zip(bjobs, brs):
@@ -222,10 +266,15 @@ def main() -> int:
         if any(x.get("_error") or x.get("exc") or x.get("plan_error") or (x.get("sandbox") or {}).get("_error") for x in (ra, rb)):
             continue
         A, B = actions_results(ra), actions_results(rb)
-        if len(A) != len(B) or not A:
+        _, _, pname, prop, tgt = binfo[ja["id"]]
+        if len(A) != len(B):
+            # the model exists on one side only: by reference it was diagnosed / removed, inline it was generated (or the other way round)
+            vd.violation("ref_vs_inline_generated_differs", f"{bases[bi][0] if bi < len(bases) else 'positions'}: {pname}.{prop} -> {tgt}: {len(A)} usable instances by reference, {len(B)} with the inline copy; diagnostics {[x['detail'][:100] for x in (ra.get('diags') or [])][:1]} vs {[x['detail'][:100] for x in (rb.get('diags') or [])][:1]}",
+                         {"ref_doc": ja["doc"], "inline_doc": jb["doc"]})
+            continue
+        if not A:
             ev.count("behaviour_pairs_unusable")
             continue
-        _, _, pname, prop, tgt = binfo[ja["id"]]
         for (aa, xa), (ab, xb) in zip(A, B):
             ev.count("behaviour_roundtrips_compared")
             oa = ("exc", xa["exc"]["type"]) if xa.get("exc") else ("ok", json.dumps(xa.get("e"), sort_keys=True))
@@ -233,8 +282,8 @@ def main() -> int:
             if oa != ob:
                 fl = aa["x"].get("flags") or []
                 from ._ops import one_flag
-                vd.violation("ref_vs_inline_behaviour_differs" + (":" + one_flag(fl) if fl else ""), f"{bases[bi][0]}: {pname}.{prop} -> {tgt}: by reference {oa[1][:120]} vs inline copy {ob[1][:120]}", {"ref_doc": ja["doc"], "inline_doc": jb["doc"], "value": aa["value"]})
-        ev.seen(("C20b", tuple(sorted(bases[bi][2]))[:8]))
+                vd.violation("ref_vs_inline_behaviour_differs" + (":" + one_flag(fl) if fl else ""), f"{bases[bi][0] if bi < len(bases) else 'positions'}: {pname}.{prop} -> {tgt}: by reference {oa[1][:120]} vs inline copy {ob[1][:120]}", {"ref_doc": ja["doc"], "inline_doc": jb["doc"], "value": aa["value"]})
+        ev.seen(("C20b", tuple(sorted(bases[bi][2]))[:8]) if bi < len(bases) else ("C20b'", prop, tgt))
     # (c') a dangling / remote reference inside a model that shares a referenced schema with other models: only that
     #      model and its dependants may change
     from .c08 import dependants, insert_bad, owner_files
